@@ -76,6 +76,13 @@ def gw_frame(name: str, req: bytes, n: int) -> dict[str, Any]:
         return {**base, "k": "Data", "src": OTHER, "dst": TESTER, "d": [0x7F, 0x00, n & 0xFF], "cw": 1}
     if name == "DataOtherDst":
         return {**base, "k": "Data", "src": ECU, "dst": OTHER, "d": [0x7F, 0x01, n & 0xFF], "cw": 1}
+    if name == "DataUsLong":      # a long message for us (splits beyond the first few bytes of the payload)
+        return {**base, "k": "Data", "src": ECU, "dst": TESTER, "d": [0x62, 0xF1, n & 0xFF] + [(7 * i + n) & 0xFF for i in range(61)], "cw": 1}
+    if name == "DataOtherLong":   # a long frame the client must skip; its payload reads like a complete frame for us
+        inner = enc({"k": "Data", "src": ECU, "dst": TESTER, "d": [0x62, 0xF1, 0xEE], "cw": 1})
+        return {**base, "k": "Data", "src": OTHER, "dst": TESTER, "d": list(inner) * 3, "cw": 1}
+    if name == "AliveLong":       # alive check with a long payload
+        return {**base, "k": "Alive", "cw": 0x12, "d": list(enc({"k": "Data", "src": ECU, "dst": TESTER, "d": [0x62, 0xF1, 0xEF], "cw": 1}))}
     if name == "Alive":
         return {**base, "k": "Alive", "cw": 0x12}
     if name == "AliveWithPayload":
